@@ -99,6 +99,13 @@ theorem admitsKey_true {c : Members} {k : String} {x : Doc} (h : admitsKey k x c
     · obtain ⟨s', hm, hs⟩ := ih h
       exact ⟨s', List.mem_cons_of_mem _ hm, hs⟩
 
+theorem anyNullOkSuperset_iff {s : Shape} {nullOk : Bool} {ws : List Shape} :
+    anyNullOkSuperset s nullOk ws = true ↔
+      ∃ v ∈ ws, (nullOk || v.isOptional) = true ∧ isSubset s v = true := by
+  induction ws with
+  | nil => simp [anyNullOkSuperset]
+  | cons w ws ih => simp [anyNullOkSuperset, ih]
+
 theorem wfList_mem {l : List Shape} (h : wfList l = true) : ∀ s ∈ l, s.wf = true := by
   induction l with
   | nil => simp
